@@ -1,6 +1,6 @@
 """C08 scaling by a factor equals refilling with every weight multiplied by it."""
 import catalogue as cat
-from gen_common import SETUP, bounds_text, data_params
+from gen_common import SETUP, SPECIAL_XY, bounds_text, data_params
 from run import Harness
 
 ASSUMPTIONS = [
@@ -13,14 +13,15 @@ def _setup(tree):
     return SETUP + f"MK = lambda: {tree.expr}\n"
 
 
-def refill(tree, n, weights=False, timeout=60, fixy=False):
-    p, pre, code = data_params(tree, n, weights=weights, mode="real", fix_leaf_y=fixy)
+def refill(tree, n, weights=False, timeout=60, fixy=False, special=False):
+    p, pre, code = data_params(tree, n, weights=weights, mode="real", fix_leaf_y=fixy, special=special)
     pe, pree, codee = data_params(tree, 1, mode="real", prefix="e", fix_leaf_y=fixy)
     body = code + codee + """
 a, r = fresh(MK, 2)
 for d, w in zip(data, ws):
     a.fill(d, w)
     r.fill(d, w * f)
+ja = J(a)
 s = a * f
 jr = J(r)
 if not jeq(J(s), jr): return "scaled-differs-from-refill"
@@ -32,12 +33,15 @@ if not jeq(J(s), J(r)): return "fill-after-scaling-differs"
 t = s + a
 u = r + a
 if not jeq(J(t), J(u)): return "merge-after-scaling-differs"
+if not jeq(J(a), ja): return "operand-changed-by-continuation-on-the-scaled-result"
+s2 = a * f
+if not jeq(J(s2), J(a * f)): return "second-scaled-copy-differs"
 """
-    tag = ("w" if weights else "") + ("-fixy" if fixy else "")
+    tag = ("w" if weights else "") + ("-fixy" if fixy else "") + ("-s" if special else "")
     return Harness(
         f"C08/refill/{tree.name}/n{n}{tag}", p + pe + [("f", "float")], " and ".join(pre + pree + ["f > 0.0"]), body,
-        timeout=timeout, setup=_setup(tree), tree=tree.expr,
-        bounds=bounds_text(tree, n + 1, factor="symbolic real > 0", weights="symbolic > 0" if weights else "1.0"),
+        timeout=timeout, setup=_setup(tree), tree=tree.expr, special=SPECIAL_XY if special else None,
+        bounds=bounds_text(tree, n + 1, factor="symbolic real > 0", weights="symbolic > 0" if weights else "1.0", data="finite reals + nan/+-inf" if special else "finite reals"),
     )
 
 
@@ -142,6 +146,8 @@ def harnesses(tier):
     units = cat.unit()
     for t in units:
         out.append(refill(t, 1))
+        if t.uses_x:
+            out.append(refill(t, 1, special=True, timeout=90))
         out.append(refill(t, 2, timeout=90))
         out.append(laws(t))
         out.append(gate(t, "ieee" if t.cmp_only else "real"))
